@@ -58,25 +58,25 @@
   (assert-hash-table "hash-table-exists?" table)
   (and (hash-table-cell table key #f) #t))
 
-(define hash-table-update!
-  (let ((not-found (cons 'not-found '())))
-    (lambda (table key func . o)
-      (assert-hash-table "hash-table-update!" table)
-      (let ((cell (hash-table-cell table key not-found)))
-        (set-cdr! cell (if (eq? not-found (cdr cell))
-                           (if (pair? o)
-                               (func ((car o)))
-                               (error "hash-table-update!: key not found" key))
-                           (func (if (and (pair? o) (pair? (cdr o)))
-                                     ((cadr o) (cdr cell))
-                                     (cdr cell)))))))))
+(define (hash-table-update! table key func . o)
+  (assert-hash-table "hash-table-update!" table)
+  (let ((cell (hash-table-cell table key #f)))
+    (cond
+     (cell
+      (set-cdr! cell (func (if (and (pair? o) (pair? (cdr o)))
+                               ((cadr o) (cdr cell))
+                               (cdr cell)))))
+     ((pair? o)
+      (hash-table-set! table key (func ((car o)))))
+     (else
+      (error "hash-table-update!: key not found" key)))))
 
-(define hash-table-update!/default
-  (let ((not-found (cons 'not-found '())))
-    (lambda (table key func default)
-      (assert-hash-table "hash-table-update!/default" table)
-      (let ((cell (hash-table-cell table key not-found)))
-        (set-cdr! cell (func (if (eq? not-found (cdr cell)) default (cdr cell))))))))
+(define (hash-table-update!/default table key func default)
+  (assert-hash-table "hash-table-update!/default" table)
+  (let ((cell (hash-table-cell table key #f)))
+    (if cell
+        (set-cdr! cell (func (cdr cell)))
+        (hash-table-set! table key (func default)))))
 
 ;;;;;;;;;;;;;;;;;;;;;;;;;;;;;;;;;;;;;;;;;;;;;;;;;;;;;;;;;;;;;;;;;;;;;;;;
 
